@@ -18,6 +18,10 @@ Theorem C18_code_ids_compare_as_numbers :
   forallb (derives ReloadId_derives) ["PartialEq"; "Eq"; "PartialOrd"; "Ord"]%string = true.
 Proof. exact reload_ids_compare_as_numbers. Qed.
 
+Theorem C18_code_ids_are_whole_words :
+  fn_body ReloadId_fields = [EPath ["usize"%string]] /\ fn_body AtomicReloadId_fields = [EPath ["AtomicUsize"%string]].
+Proof. exact reload_ids_are_whole_words. Qed.
+
 Theorem C18_update_true_iff_grew : forall cur new,
   snd (update cur new) = true <-> cur < fst (update cur new).
 Proof. exact update_true_iff_grew. Qed.
